@@ -55,7 +55,26 @@ type guardSet struct {
 	funcs map[string]string // ref -> kind/detail
 	// ptrFuncs: functions whose first result is a pointer that is non-nil only after a guard was passed (nil = "seen before")
 	ptrFuncs map[string]string
+	// depthIdx: for depth guards, the index (in Call.Args, receiver included) of the argument that carries the depth
+	depthIdx map[string]int
 	memo     map[*ssa.Function]*guardFacts
+}
+
+// depthArgParam: the parameter of the calling function that a depth guard call decides on (looking through `p + c`).
+func (gs *guardSet) depthArgParam(call *ssa.Call) *ssa.Parameter {
+	_, ref := callRef(call)
+	idx, ok := gs.depthIdx[ref]
+	if !ok || idx >= len(call.Call.Args) {
+		return nil
+	}
+	a := call.Call.Args[idx]
+	if add, ok := a.(*ssa.BinOp); ok && add.Op == token.ADD {
+		if _, isC := add.Y.(*ssa.Const); isC {
+			a = add.X
+		}
+	}
+	prm, _ := a.(*ssa.Parameter)
+	return prm
 }
 
 func ptrResults(call ssa.Value) []ssa.Value {
@@ -218,7 +237,10 @@ func accessPath(v ssa.Value) string {
 }
 
 func newGuardSet(p *Program) *guardSet {
-	gs := &guardSet{p: p, funcs: map[string]string{}, ptrFuncs: map[string]string{}, memo: map[*ssa.Function]*guardFacts{}}
+	gs := &guardSet{p: p, funcs: map[string]string{}, ptrFuncs: map[string]string{}, memo: map[*ssa.Function]*guardFacts{}, depthIdx: map[string]int{
+		"pkg/pdfcpu/model.CheckRecursionDepth":           1,
+		"pkg/pdfcpu/model.XRefTable.CheckRecursionDepth": 2,
+	}}
 	for k, v := range c08BaseGuards {
 		gs.funcs[k] = v + ":" + k
 	}
@@ -265,6 +287,15 @@ func newGuardSet(p *Program) *guardSet {
 			if ok && n > 0 {
 				gs.funcs[ref] = "summary:" + ref + " <- " + strings.Join(gf.desc, ",")
 				changed = true
+				eachInstr(fn, func(_ *ssa.BasicBlock, _ int, i ssa.Instruction) {
+					if call, ok := i.(*ssa.Call); ok {
+						if prm := gs.depthArgParam(call); prm != nil {
+							if k := paramIndex(fn, prm); k >= 0 {
+								gs.depthIdx[ref] = k
+							}
+						}
+					}
+				})
 				continue
 			}
 			// pointer-result summary
